@@ -466,6 +466,8 @@ def c18(proj, rep, tier):
     rep.floor('O3B value returns of the public catalogue constructors', n, 25)
     n = round3b.f8(proj, rep, ['numqi.state._internal'] if tier == 'quick' else None)
     rep.floor('F8 computed radicands with a clamp in reach', n, 1)
+    n = round3b.ex1(proj, rep, ['numqi.state._internal', 'numqi.entangle.upb', 'numqi.dicke'] if tier == 'quick' else None)
+    rep.floor('EX1 asserted-enumeration dispatch chains (catalogue)', n, 1)
     n = round3b.rp1(proj, rep, ['numqi.entangle.upb.load_upb'])
     rep.floor('RP1 two-party block lists built from role-suffixed parameters', n, 1)
 
@@ -495,6 +497,8 @@ def c20(proj, rep, tier):
     rep.floor('EV1 / FZ1 / SO1 / ID1 lint sweep: functions scanned (matrix_space)', n, 30)
     rep.floor('EV1 eigenvector selections in matrix_space', rep.analysed.get('EV1.eigenvector_selections', 0), 2)
     round3b.dt4(proj, rep, G20)
+    n = round3b.ex1(proj, rep, G20)
+    rep.floor('EX1 asserted-enumeration dispatch chains (matrix_space)', n, 3)
 
 
 def c17(proj, rep, tier):
